@@ -168,8 +168,21 @@ func runLeadEnsure(srv *lrsrv.Srv, in leadInput, seq int) {
 	if err := leadWrite(srv, src, N); err != nil {
 		res.Note("leads/%s: write: %v", in.Kind, err)
 	}
-	// 12 s: two retry periods of the worker (5 s) and the pipe's copying
+	// 12 s: two retry periods of the worker (5 s) and the pipe's copying. A worker that marks itself stopped is started
+	// again, as Forwarder.syncWorkers does with a stopped worker.
+	restarts := 0
 	for t0 := time.Now(); time.Since(t0) < 12*time.Second && snk.n() < N; time.Sleep(50 * time.Millisecond) {
+		if sess.IsStopped() && restarts < 2 && time.Since(t0) > time.Second {
+			restarts++
+			cancel()
+			sess.Wait()
+			ctx, cancel = context.WithCancel(context.Background())
+			if sess, err = forwarder.StartVerifSession(ctx, cfg, lc, &leadStore{}, snk); err != nil {
+				cancel()
+				res.Note("leads/%s: restart: %v", in.Kind, err)
+				return
+			}
+		}
 	}
 	got, stopped := snk.n(), sess.IsStopped()
 	lc.mu.Lock()
@@ -189,23 +202,19 @@ func runLeadEnsure(srv *lrsrv.Srv, in leadInput, seq int) {
 		qs = append(qs, fmt.Sprintf("%q", q))
 	}
 	impl := fmt.Sprintf("12 s after the pipe partition held %d events: delivered %d; EnsurePipe calls by the worker: %d; its queries (%d): %s; isStopped=%v", N, got, ensures, len(queries), strings.Join(qs, " "), stopped)
+	// the class is decided by what was observed, not by the schedule: (F80) the worker went on with an empty destination;
+	// (F81) the worker is gone — no call at all — and does not say it has stopped
 	switch {
 	case in.Control:
 		leadFail(in, "incomplete", "", impl, "all events delivered", "control schedule (no failure): the worker must deliver the pipe partition")
-	case in.Kind == "ensure-swallowed":
-		f := ""
-		if ensures == 1 && uniq["SELECT FROM "] && len(uniq) == 1 {
-			f = "F80"
-		}
-		leadFail(in, "ensure-failure-swallowed-nothing-forwarded", f, impl, "a failed EnsurePipe is reported and retried; every event of the pipe's partition reaches the sink",
+	case len(queries) > 0 && uniq["SELECT FROM "] && len(uniq) == 1:
+		leadFail(in, "ensure-failure-swallowed-nothing-forwarded", "F80", impl, "a failed EnsurePipe is reported and retried; every event of the pipe's partition reaches the sink",
 			"rpc.Client.EnsurePipe returns nil although the call failed (`return nil` after `err := pps.EnsurePipe(...)`): worker.getPipe takes the zero api.Pipe, the destination is empty, the worker asks `SELECT FROM ` (a server error) every 5 s for ever and never ensures the pipe again")
-	default:
-		f := ""
-		if ensures == 1 && len(queries) == 0 && !stopped {
-			f = "F81"
-		}
-		leadFail(in, "worker-dead-after-ensure-error-not-restartable", f, impl, "a failed EnsurePipe is retried (at the latest by the next syncWorkers); every event of the pipe's partition reaches the sink",
+	case len(queries) == 0 && !stopped:
+		leadFail(in, "worker-dead-after-ensure-error-not-restartable", "F81", impl, "a failed EnsurePipe is retried (at the latest by the next syncWorkers); every event of the pipe's partition reaches the sink",
 			"worker.run returns the getPipe error without storing wsStopped; Forwarder.syncWorkers starts a worker again only if isStopped(): the worker's goroutine is gone (no EnsurePipe, no Query in 12 s), isStopped() stays false, the pipe is never forwarded until the forwarder restarts")
+	default:
+		leadFail(in, "incomplete", "", impl, "all events delivered", "after a failed EnsurePipe the pipe partition was not delivered")
 	}
 }
 
